@@ -113,5 +113,6 @@ def pauli(ind: int | str | list[int] | list[str], is_sparse: bool = False) -> np
     num_qubits = len(ind)
     pauli_mats = []
     for i in range(num_qubits):
-        pauli_mats.append(pauli(ind[i], is_sparse))
-    return tensor(pauli_mats)
+        pauli_mats.append(pauli(ind[i]))
+    pauli_mat = tensor(pauli_mats)
+    return csr_array(pauli_mat) if is_sparse else pauli_mat
